@@ -66,7 +66,7 @@ class C10(Prop):
                 while True:
                     label = "paginate_webentity_pagelinks(%r, %d prefixes, internal=%r, outbound=%r, k=%d) call %d" % (
                         w, len(order), ii, io, k, calls + 1)
-                    r = case.call(label, t.paginate_webentity_pagelinks, w, list(order), include_internal=ii,
+                    r = case.call(label, t.paginate_webentity_pagelinks, w, ob.args(order), include_internal=ii,
                                   include_outbound=io, source_page_count=k, pagination_token=tok,
                                   _passthrough=(RecursionError,))
                     calls += 1
